@@ -633,6 +633,9 @@ func c14AfterRefusals(run *evid.Run, i int, j *Journal) {
 	ok, dead, dump := guardCall(func() {
 		for n := 0; refused < target; n++ {
 			m := 1 + rng.Intn(10)
+			if n == 0 && rng.Intn(2) == 0 {
+				m = target // all of them in ONE refused merge (more than the log's concurrency limit when target > 16)
+			}
 			if m > target-refused {
 				m = target - refused
 			}
